@@ -356,9 +356,10 @@ fn frag_cases(run: &mut Run, rt: &tokio::runtime::Runtime, rng: &mut Rng, thorou
                     cfg.max_buffered = 0;
                     let chans = if variant == 4 { vec![] } else { vec![spec.clone()] };
                     let ep = Endpoint::new(port, port + 1, true, &cfg, &chans).await;
-                    // a channel that is still Connecting refuses data (98ed161, 23adf47): nothing is queued
-                    if variant != 4 && ep.sctp.send_data(7, b"early").await.is_ok() { refused_ok = false; }
+                    // before the association is established user data is refused (3f613aa): nothing is queued
+                    if ep.sctp.send_data(7, b"early").await.is_ok() { refused_ok = false; }
                     if !ep.sctp.verif_snapshot().outbound_queue.is_empty() { refused_ok = false; }
+                    ep.sctp.verif_set_state(SctpState::Connected);
                     for d in &ep.dcs { d.state.store(1, std::sync::atomic::Ordering::SeqCst); }
                     for _ in 0..presend { let _ = ep.sctp.send_data(7, b"x").await; }
                     let before = ep.sctp.verif_snapshot().outbound_queue.len();
@@ -387,7 +388,7 @@ fn frag_cases(run: &mut Run, rt: &tokio::runtime::Runtime, rng: &mut Rng, thorou
         }
     }
     run.count_n("frag_cases", n);
-    if !refused_ok { run.fail("send:accepted-on-a-channel-that-is-still-connecting", "frag", "send_data returned Ok or queued chunks while the channel state was Connecting"); }
+    if !refused_ok { run.fail("send:accepted-before-the-association-is-established", "frag", "send_data returned Ok or queued chunks while the association state was New"); }
 }
 
 // ------------------------------------------------------------------------------------------
